@@ -24,7 +24,7 @@
 From Coq Require Import List Arith Bool PeanoNat.
 Import ListNotations.
 
-Definition id := nat.
+Notation id := nat (only parsing).
 
 Inductive kind := KManaged | KRoot | KRaw.     (* new / new_root / new_raw *)
 
